@@ -3,6 +3,15 @@ use crate::polynomials::{PolynomialError, structs::SimplePolynomial};
 // Largest exponent accepted: the coefficient vector is dense
 const MAX_POWER: usize = 1 << 16;
 
+// Plain decimal spelling only: [-]digits[.digits] (no "inf", "nan" or exponent forms)
+fn parse_decimal(text: &str) -> Option<f64> {
+    let digits = text.strip_prefix('-').unwrap_or(text);
+    if digits.is_empty() || !digits.bytes().all(|b| b.is_ascii_digit() || b == b'.') {
+        return None;
+    }
+    text.parse::<f64>().ok()
+}
+
 pub fn parse_simple_polynomial<S>(input: S) -> Result<SimplePolynomial, PolynomialError>
 where
     S: AsRef<str>,
@@ -38,11 +47,9 @@ where
                 } else if coeff_str == "-" {
                     -1.0
                 } else {
-                    coeff_str
-                        .parse::<f64>()
-                        .map_err(|_| PolynomialError::InvalidCoefficient {
-                            coeff: coeff_str.to_string(),
-                        })?
+                    parse_decimal(coeff_str).ok_or_else(|| PolynomialError::InvalidCoefficient {
+                        coeff: coeff_str.to_string(),
+                    })?
                 };
 
                 // Only "^<exponent>" (or nothing) may follow the variable
@@ -66,16 +73,12 @@ where
                 }
             } else {
                 // No 'x' aka num is constant
-                let constant = part
-                    .parse::<f64>()
-                    .map_err(|_| PolynomialError::InvalidConstant)?;
+                let constant = parse_decimal(part).ok_or(PolynomialError::InvalidConstant)?;
                 (constant, 0)
             }
         } else {
             // No variable (just constant)
-            let constant = part
-                .parse::<f64>()
-                .map_err(|_| PolynomialError::InvalidConstant)?;
+            let constant = parse_decimal(part).ok_or(PolynomialError::InvalidConstant)?;
             (constant, 0)
         };
         terms.push(term);
